@@ -685,8 +685,18 @@ fn main() {
                 let chk = single_check(test, scalar::run, tapi, ids, pair);
                 for idx in r {
                     // element-wise / data-move operations need no conditioning analysis: they also get special (non-NaN) operands
-                    let words = if exact_class(&tapi[ids[idx as usize] as usize]) > 0 { special_finite() } else { moderate() };
-                    let st = (any::<u32>(), lattice::with_related_operands(proptest::collection::vec(words, NW).boxed(), 32)).prop_map(move |(ps, a)| {
+                    let exact_op = exact_class(&tapi[ids[idx as usize] as usize]) > 0;
+                    let words = if exact_op { special_finite() } else { moderate() };
+                    // exact-class operations also see operand sets that are huge in every lane (sums and doublings overflow) or
+                    // tiny in every lane (halvings and products lose bits to the subnormal range)
+                    let all_huge = (250u32..=254, 0u32..(1 << 23), any::<bool>()).prop_map(|(e, m, s)| (((s as u32) << 31) | (e << 23) | m) as u64);
+                    let all_tiny = (0u32..=2, 0u32..(1 << 23), any::<bool>()).prop_map(|(e, m, s)| (((s as u32) << 31) | (e << 23) | m) as u64);
+                    let vecs = if exact_op {
+                        prop_oneof![84 => proptest::collection::vec(words, NW), 8 => proptest::collection::vec(all_huge, NW), 8 => proptest::collection::vec(all_tiny, NW)].boxed()
+                    } else {
+                        proptest::collection::vec(words, NW).boxed()
+                    };
+                    let st = (any::<u32>(), lattice::with_related_operands(vecs, 32)).prop_map(move |(ps, a)| {
                         let mut v = vec![idx, ps as u64];
                         v.extend(a);
                         v
